@@ -8,3 +8,10 @@ CHECKS["C17"] = dict(
           "with the property as an action property; every one-step bump of the real code from the same starts, a seeded sample of 5..7 digit starts and "
           "CLI chains crossing every digit-length expansion are validated event by event by the trace spec (Trace_Text, event `build`)."),
     note=_NOTE, ref="DESIGN.md section 6, C17")
+CHECKS["C05"] = dict(
+    technique="TLA+ spec (BVVersion: operational Incr vs declarative README rules) model-checked with TLC + trace validation of `bumpver test` runs",
+    text=("Design level: TLC enumerates patterns x version states x all applicable flag sets (up to 448) x date offsets and checks the step-by-step Incr "
+          "against the per-part README rules (BumpClause), refusals against the documented refusal reasons. Conformance: thousands of seeded and systematic "
+          "`bumpver test OLD PATTERN <flags> --date D` runs are recorded as `incr` events; the trace spec reads old and new text with its own recogniser and "
+          "evaluates the rules on every event."),
+    note=_NOTE, ref="DESIGN.md section 6, C05")
